@@ -52,6 +52,7 @@ class Impl:
         self.top = None
         self.leaves = []
         self.text_stream = None
+        self.sibling = None
 
 
 def build(config):
@@ -60,7 +61,7 @@ def build(config):
     ff_inner = ff_mode in ("inner", "inner1")
     if leaf_kind == "etsd":
         impl.top = ExtendedToStreamDecorator(StreamResult())
-        if ff_mode != "off":
+        if ff_mode not in ("off", "toggle"):
             impl.top.failfast = True
         return impl
     if leaf_kind == "tt":
@@ -81,7 +82,10 @@ def build(config):
             impl.leaves.append(other)
             obj = MultiTestResult(obj, other)
         elif w == "tfr":
-            obj = ThreadsafeForwardingResult(obj, threading.Semaphore(1))
+            sem = threading.Semaphore(1)
+            # (another worker's forwarder: same target, same semaphore - only used when this one is outermost)
+            impl.sibling = ThreadsafeForwardingResult(obj, sem)
+            obj = ThreadsafeForwardingResult(obj, sem)
         elif w == "etod":
             obj = ExtendedToOriginalDecorator(obj)
         elif w == "decorator":
@@ -114,6 +118,8 @@ def configs(tier):
                     out.append((leaf, ws, ff))
     out.append(("etsd", (), "off"))
     out.append(("etsd", (), "outer"))
+    # failfast switched on and off in the course of the run (assigned after startTestRun, say)
+    out.append(("etsd", (), "toggle"))
     return out
 
 
@@ -133,7 +139,7 @@ class Model:
         self.counts = {o: 0 for o in OUTCOMES}
 
     def key(self):
-        return (self.in_run, self.in_test, self.has_outcome, self.bad, self.stopped, self.tests, self.total_tests, tuple(sorted(self.counts.items())))
+        return (self.F, self.in_run, self.in_test, self.has_outcome, self.bad, self.stopped, self.tests, self.total_tests, tuple(sorted(self.counts.items())))
 
 
 class System:
@@ -146,7 +152,7 @@ class System:
         self.double = len(config[1]) <= 1 and config[0] != "etsd" and "tfr" not in config[1]
 
     def fresh(self):
-        m = Model(self.config[2] not in ("off", "second-then-off"))
+        m = Model(self.config[2] not in ("off", "second-then-off", "toggle"))
         m.hetero = self.config[2] == "inner1"
         return build(self.config), m
 
@@ -171,6 +177,11 @@ class System:
                 # as well reports two problems for one test
                 out.extend((("addError",), ("addFailure",)))
         out.append(("stop",))
+        if self.config[2] == "toggle":
+            out.append(("failfast_off",) if m.F else ("failfast_on",))
+        if self.config[1][-1:] == ("tfr",) and not m.in_test:
+            # ConcurrentTestSuite: stop() arrives through another worker's forwarder
+            out.append(("sibling_stop",))
         return out
 
     def apply(self, impl, m, op, check):
@@ -203,6 +214,13 @@ class System:
                 m.in_test = False
             elif name == "stop":
                 top.stop()
+                m.stopped = True
+                m.stop_called = True
+            elif name in ("failfast_on", "failfast_off"):
+                top.failfast = name == "failfast_on"
+                m.F = name == "failfast_on"
+            elif name == "sibling_stop":
+                impl.sibling.stop()
                 m.stopped = True
                 m.stop_called = True
             else:
